@@ -1,16 +1,7 @@
 #!/bin/sh
-# run every thorough command once, end to end, two at a time (each uses a 16-process pool)
+# run every thorough command once, end to end, three at a time (each uses a 16-process pool), longest first
 cd "$(dirname "$0")/.." 2>/dev/null || cd .
-run2() { ./check $1 --tier thorough > thorough_$1.log 2>&1 & p1=$!; ./check $2 --tier thorough > thorough_$2.log 2>&1 & p2=$!; wait $p1; wait $p2; }
 python3 vlib/bootstrap.py
-run2 C04 C05
-run2 C20 C11
-run2 C12 C13
-run2 C16 C17
-run2 C14 C19
-run2 C15 C10
-run2 C06 C09
-run2 C07 C08
-run2 C01 C03
-./check C02 --tier thorough > thorough_C02.log 2>&1
+printf '%s\n' C03 C01 C06 C02 C07 C08 C09 C15 C13 C12 C10 C11 C16 C19 C14 C17 C20 C04 C05 | xargs -P 3 -I{} sh -c './check {} --tier thorough > thorough_{}.log 2>&1; echo "{} exit $?" >> thorough_status.txt'
 grep -h "RESULT" thorough_*.log
+! grep -v "exit 0" thorough_status.txt
